@@ -5,6 +5,7 @@ import (
 	"go/ast"
 	"go/token"
 	"go/types"
+	"regexp"
 	"sort"
 	"strings"
 
@@ -408,6 +409,30 @@ func runC02(c *core.Ctx) core.Meta {
 				c.Report(core.Finding{Rule: "R02.3", Pkg: cuPkg, Func: "VectorMemoryUnit.executeFlatInsts", Detail: fmt.Sprintf("flat-opcode-missing:%d", op), Msg: fmt.Sprintf("FLAT opcode %d is executed by %s but not accepted by the timing vector memory unit", op, pair.name)})
 			}
 		}
+	}
+	// the other direction: an opcode only the timing unit executes has no functional
+	// reference at all (the emulator panics on it), so nothing ties the bytes the
+	// coalescer moves to the instruction's data width
+	var extra []int64
+	for op := range tF {
+		if !eF[op] && !cF[op] {
+			extra = append(extra, op)
+		}
+	}
+	sort.Slice(extra, func(i, j int) bool { return extra[i] < extra[j] })
+	subDwordName := regexp.MustCompile(`_(u|s)?(byte|short)(_d16(_hi)?)?$`)
+	for _, op := range extra {
+		r, ok := LoadInstTables(c).Lookup("FLAT", op)
+		if !ok {
+			continue // not decodable: the case is unreachable
+		}
+		name := strings.TrimSpace(r.Name)
+		if !subDwordName.MatchString(name) {
+			continue // whole-dword accesses move what the coalescer moves
+		}
+		st3.Instances++
+		st3.Ob(false)
+		c.Report(core.Finding{Rule: "R02.3", Pkg: cuPkg, Func: "VectorMemoryUnit.executeFlatInsts", Detail: fmt.Sprintf("flat-opcode-extra:%d", op), Msg: fmt.Sprintf("FLAT opcode %d (%s) is a sub-dword access executed by the timing vector memory unit but by neither ALU: the same binary panics in emulation and runs in timing, where the coalescer moves one whole dword per lane whatever the instruction's width (flat_store_byte / flat_store_short overwrite the neighbouring bytes, flat_load_sshort is not sign-extended)", op, name)})
 	}
 	st3.Sample("FLAT opcodes: emu %s cdna3 %s timing accepts %s", setStr(eF), setStr(cF), setStr(tF))
 	// transforming (sub-dword) loads: how many memory bytes reach the register, and how they are extended
